@@ -162,6 +162,26 @@ func (n *refNode) walk(comps []string) (*refNode, string) {
 	return cur, ""
 }
 
+// reach: the directory at comps can be walked to (every directory above it can be
+// loaded, it exists and is a directory); it need not be loadable itself.
+func (n *refNode) reach(comps []string) string {
+	if len(comps) == 0 {
+		return ""
+	}
+	d, st := n.walk(comps[:len(comps)-1])
+	if st != "" {
+		return st
+	}
+	c, ok := d.children[comps[len(comps)-1]]
+	if !ok {
+		return "ENOENT"
+	}
+	if c.kind != "dir" {
+		return "ENOTDIR"
+	}
+	return ""
+}
+
 // refExec gives the output the property demands for a fault-free operation and
 // applies its effect.
 func refExec(root *refNode, blobs map[string][]byte, hashLen int, op string, args []string) string {
@@ -177,7 +197,79 @@ func refExec(root *refNode, blobs map[string][]byte, hashLen int, op string, arg
 		return out, true
 	}
 	switch op {
-	case "merge":
+	case "rename", "link":
+		p1, x1, p2, x2, ok := splitTwoPaths(args)
+		if !ok {
+			return "bad-op"
+		}
+		if op == "rename" {
+			// the caller walks to both directories first; only then VirtualRename
+			// loads the old and the new directory
+			if st := root.reach(p1); st != "" {
+				return st
+			}
+			if st := root.reach(p2); st != "" {
+				return st
+			}
+		}
+		d1, st := root.walk(p1)
+		if st != "" {
+			return st
+		}
+		if op == "link" {
+			v, ok := d1.children[x1]
+			if !ok {
+				return "ENOENT"
+			}
+			if v.kind == "dir" {
+				return "EISDIR"
+			}
+			d2, st := root.walk(p2)
+			if st != "" {
+				return st
+			}
+			if _, ok := d2.children[x2]; ok {
+				return "EEXIST"
+			}
+			d2.children[x2] = v
+			return "ok"
+		}
+		d2, st := root.walk(p2)
+		if st != "" {
+			return st
+		}
+		nw, nok := d2.children[x2]
+		od, ook := d1.children[x1]
+		if !ook {
+			return "ENOENT"
+		}
+		if nok {
+			if nw.kind == "dir" {
+				if od.kind != "dir" {
+					return "EISDIR"
+				}
+				if nw == od {
+					return "ok"
+				}
+				if nw.bad != "" {
+					return "EIO"
+				}
+				if len(nw.children) > 0 {
+					return "ENOTEMPTY"
+				}
+			} else {
+				if od.kind == "dir" {
+					return "ENOTDIR"
+				}
+				if nw == od {
+					return "ok"
+				}
+			}
+		}
+		delete(d1.children, x1)
+		d2.children[x2] = od
+		return "ok"
+	case "merge", "mmerge":
 		h, s, ok := untokDig(args[0])
 		if !ok {
 			return "bad-op"
@@ -312,4 +404,87 @@ func refExec(root *refNode, blobs map[string][]byte, hashLen int, op string, arg
 		return "EISDIR"
 	}
 	return "bad-op"
+}
+
+// splitTwoPaths decodes `<n1> comps...`: the first n1 components are the
+// old/source path (directory components + name), the rest the new path.
+func splitTwoPaths(args []string) (p1 []string, x1 string, p2 []string, x2 string, ok bool) {
+	if len(args) < 3 {
+		return nil, "", nil, "", false
+	}
+	n1 := 0
+	if _, err := fmt.Sscanf(args[0], "%d", &n1); err != nil || n1 < 1 || n1 >= len(args)-1+1 || len(args)-1-n1 < 1 {
+		return nil, "", nil, "", false
+	}
+	cs, okc := decodeComps(args[1:])
+	if !okc {
+		return nil, "", nil, "", false
+	}
+	a, b := cs[:n1], cs[n1:]
+	return a[:len(a)-1], a[len(a)-1], b[:len(b)-1], b[len(b)-1], true
+}
+
+// sameObject reports whether old and new entry of a rename are two hard links of
+// one leaf object (not modelled: the Go code makes that a no-op).
+func sameObject(root *refNode, args []string, dedup bool) bool {
+	p1, x1, p2, x2, ok := splitTwoPaths(args)
+	if !ok {
+		return false
+	}
+	d1, st1 := root.walk(p1)
+	d2, st2 := root.walk(p2)
+	if st1 != "" || st2 != "" {
+		return false
+	}
+	a, ok1 := d1.children[x1]
+	b, ok2 := d2.children[x2]
+	if !ok1 || !ok2 || a.kind == "dir" || (d1 == d2 && x1 == x2) {
+		return false
+	}
+	if a == b {
+		return true
+	}
+	// The NFS handle allocator deduplicates stateless leaves: CAS files with the same
+	// digest and executable bit, and symlinks with the same target, are one object
+	// (one inode), so renaming one over the other is the POSIX no-op as well.
+	if dedup {
+		if a.kind == "file" && b.kind == "file" {
+			return a.hash == b.hash && a.size == b.size && a.exec == b.exec
+		}
+		if a.kind == "sym" && b.kind == "sym" {
+			return a.target == b.target
+		}
+	}
+	return false
+}
+
+// refClosure: the digests a directory digest transitively refers to (Directory
+// objects and files), looking at digests only as the gatherer does; ok=false if
+// some Directory below is absent, not a Directory or carries a malformed digest.
+func refClosure(blobs map[string][]byte, hashLen int, hash string, size int64, seen map[string]bool) bool {
+	k := casKeyOf(hash, size)
+	if seen[k] {
+		return true
+	}
+	seen[k] = true
+	b, ok := blobs[k]
+	if !ok {
+		return false
+	}
+	var m remoteexecution.Directory
+	if err := proto.Unmarshal(b, &m); err != nil {
+		return false
+	}
+	for _, e := range m.Directories {
+		if !refDigestOK(e.Digest, hashLen) || !refClosure(blobs, hashLen, e.Digest.Hash, e.Digest.SizeBytes, seen) {
+			return false
+		}
+	}
+	for _, e := range m.Files {
+		if !refDigestOK(e.Digest, hashLen) {
+			return false
+		}
+		seen[casKeyOf(e.Digest.Hash, e.Digest.SizeBytes)] = true
+	}
+	return true
 }
